@@ -19,6 +19,14 @@ Kind `el3batch`: batches of 1..40 entries (x, kc, p) through the real dispatcher
 routine `el3v` from 10 on) against the port of `el30` applied entry by entry (the model of `el3` on a batch; the loop skeleton of `el3v` is proved row-wise,
 Props/C06 `el3v_loop_rowwise_partial`), relative 1e-12 (largest seen 4e-15: `h - r - r` vs `h - 2*r` and the like); where `el30` raises ValueError (x < 0 in the
 logarithmic branch, known finding el3-nan-to-int) the array routine's NaN is the reference.  On the real code also: `el3v(batch)[i]` bit-identical to `el3v([batch[i]])`.
+Kind `cylbatch`: `BHJM_magnet_cylinder` on a whole batch of 1..40 rows (the row counts of its two sub-batches — rows with axial polarization, and
+rows with transversal polarization at r/r0 >= 0.05 — straddle the `n < 10` switch of `cel` separately; one cylinder for all rows or one per row;
+observers from the strata of the `cylinder` kind plus observers 1e-9..1e-6 radii from the axis and 1e3..1e5 radii away, where a modulus of a `cel`
+call lies in the band | 1 - |kc| | <= 1e-6; rows on r = r0, on the axis, repeated rows, permuted rows) against `Kern.bhjmCylinderBatch (celDispatch 200)`
+(Model/CylinderBatch.lean), relative 1e-14 of max(|value|, polarization scale) for batches with axial polarization only (largest seen 8e-16; the two paths of `cel` differ by up to 7e-13 there, so a wrong path would show), 1e-10 otherwise (largest seen 3e-12: scipy's ellipk / ellipe against their
+cel0 forms, as in the `cylinder` kind).  On the real code the same rows also check what Props/C06 `cylinder_batch_rowwise_off_band` proves of the model: a row of the batch result is
+bit-identical to the call with that row alone unless one of the row's `cel` moduli lies in the band; the rows that differ (all in the band) are counted with
+their largest relative difference.
 Kind `cylinder`: `BHJM_magnet_cylinder` (one row: `cel` takes its
 cel0 path) against `Kern.bhjmCylinder` (Model/Cylinder.lean: axial Derby kernel, diametral kernel with the Taylor
 branch r/r0 < 0.05 and the general branch, scipy's ellipk/ellipe modelled through cel0 — the modelling assumption this
@@ -160,7 +168,7 @@ def run_stream(ctx, n, only=None, with_in_out=False):
     lines, expect, meta = [], [], []
     for i in range(n):
         nps = np.random.default_rng(rng.randrange(2**31))
-        kinds = only or (["dipole", "sphere", "segment", "cuboidmask", "cuboid", "triangle", "tetra", "circle", "tetrainside", "cel0", "celiter", "cylinder", "cylmask", "cylinder", "celbatch", "el3batch"]  # cylinder twice: twelve observer strata x six polarization kinds
+        kinds = only or (["dipole", "sphere", "segment", "cuboidmask", "cuboid", "triangle", "tetra", "circle", "tetrainside", "cel0", "celiter", "cylinder", "cylmask", "cylinder", "celbatch", "el3batch", "cylbatch"]  # cylinder twice: twelve observer strata x six polarization kinds
                          + (["l1cuboid", "l1tetra", "l1sphere", "l1cylinder", "l1tetra", "l1cylseg"] if with_in_out else []))  # C02: the keyword in_out through getBH_level1
         kind = kinds[i % len(kinds)]
         sc = 10.0 ** nps.uniform(-3, 3)
@@ -421,6 +429,81 @@ def run_stream(ctx, n, only=None, with_in_out=False):
             meta.append(m)
             expect.append(("vec", r, 1e-300))
             continue
+        elif kind == "cylbatch":
+            nrow = rng.choice([1, 2, 5, 9, 10, 11, 12, 14, 15, 19, 20, 21, 30, 40, rng.randrange(1, 41), rng.randrange(1, 41)])
+            f = rng.choice("BHBHJM")
+            shared = rng.random() < 0.5  # one cylinder, many observers (getB of one source) / one cylinder per row
+            polmode = rng.choice(["mixed", "mixed", "ax", "tv", "any", "any"])
+            rowsD, rowsP, rowsX, strata = [], [], [], []
+            d0, h0, _, _ = cylinder_case(rng, nps, sc)
+            for j in range(nrow):
+                d, h, x, stratum = cylinder_case(rng, nps, sc)
+                if shared:  # re-draw the observer for the shared cylinder: same strata, scaled to its size
+                    x = x * np.array([d0 / d, d0 / d, h0 / h])
+                    d, h = d0, h0
+                k = rng.random()
+                r0_, z0_ = d / 2, h / 2
+                if k < 0.12:  # near the axis: the axial moduli k0, k1 are in the band
+                    rr = r0_ * 10 ** nps.uniform(-9, -6.3)
+                    ph = nps.uniform(0, 2 * np.pi)
+                    x = np.array([rr * np.cos(ph), rr * np.sin(ph), z0_ * nps.uniform(-2.5, 2.5)])
+                    stratum = "band_axis"
+                elif k < 0.2:  # far away: the diametral moduli sqrt(1 - argp), sqrt(1 - argm) are in the band
+                    x = nps.uniform(-1, 1, 3) * r0_ * 10 ** nps.uniform(3.2, 5)
+                    stratum = "band_far"
+                pk = polmode if polmode in ("ax", "tv", "mixed") else rng.choice(["ax", "tv", "mixed", "mixed", "zero", "tv1"])
+                pol = nps.uniform(-1, 1, 3)
+                if pk == "ax":
+                    pol[:2] = 0.0
+                elif pk == "tv":
+                    pol[2] = 0.0
+                elif pk == "tv1":
+                    pol[2] = 0.0
+                    pol[rng.randrange(2)] = 0.0
+                elif pk == "zero":
+                    pol[:] = 0.0
+                rowsD.append([d, h]); rowsP.append(pol); rowsX.append(x); strata.append(stratum)
+            D, P, X = np.array(rowsD), np.array(rowsP), np.array(rowsX, dtype=float)
+            if nrow > 1 and rng.random() < 0.4:  # repeated rows
+                for _ in range(rng.randrange(1, 4)):
+                    a, b = rng.randrange(nrow), rng.randrange(nrow)
+                    D[a], P[a], X[a] = D[b], P[b], X[b]
+                    strata[a] = strata[b]
+            if rng.random() < 0.3:
+                perm = nps.permutation(nrow)
+                D, P, X = D[perm], P[perm], X[perm]
+                strata = [strata[t] for t in perm]
+            lines.append(f"kern cylbatch b {f} {nrow} " + " ".join(f"{bits(D[j, 0])} {bits(D[j, 1])} {enc(P[j])} {enc(X[j])}" for j in range(nrow)))
+            m = {"kind": kind, "field": f, "rows": nrow, "shared": shared, "pol": polmode, "line": lines[-1][:80], "strata": strata}
+            meta.append(m)
+            try:
+                with np.errstate(all="ignore"):
+                    full = np.asarray(BHJM_magnet_cylinder(f, X.copy(), D.copy(), P.copy()), dtype=float)
+                    single = np.array([BHJM_magnet_cylinder(f, X[j:j + 1].copy(), D[j:j + 1].copy(), P[j:j + 1].copy())[0] for j in range(nrow)])
+            except RuntimeError:  # cel0 raised (kc == 0): not generated on purpose
+                expect.append(("mask", "none", None))
+                continue
+            # which rows have a `cel` modulus in the band (the formulas of the two kernels, on the rows that reach them)
+            with np.errstate(all="ignore"):
+                r0a = D[:, 0] / 2
+                rr, zz, zz0 = np.hypot(X[:, 0], X[:, 1]) / r0a, X[:, 2] / r0a, D[:, 1] / 2 / r0a
+                inband = lambda kk: ~(np.abs(1.0 - np.abs(kk)) > 1.0 * 0.000001)
+                kax = [np.sqrt(((zz + s_ * zz0) ** 2 + (1 - rr) ** 2) / ((zz + s_ * zz0) ** 2 + (1 + rr) ** 2)) for s_ in (1, -1)]
+                ktv = [np.sqrt(1 - (-4 * rr / ((zz + s_ * zz0) ** 2 + (rr - 1) ** 2))) for s_ in (1, -1)]
+                band = ((P[:, 2] != 0) & (inband(kax[0]) | inband(kax[1]))) | (((P[:, 0] != 0) | (P[:, 1] != 0)) & ~(rr < 0.05) & (inband(ktv[0]) | inband(ktv[1])))
+            same = np.all((full == single) | (np.isnan(full) & np.isnan(single)), axis=1)
+            with np.errstate(all="ignore"):
+                nrm = np.maximum(np.linalg.norm(np.nan_to_num(full), axis=1), 1e-300)
+                rd = np.where(same, 0.0, np.max(np.abs(np.nan_to_num(full - single)), axis=1) / nrm)
+            m["row_ne_batch_off_band"] = int(np.sum(~same & ~band))
+            m["row_ne_batch_in_band"] = int(np.sum(~same & band))
+            m["band_rows"] = int(np.sum(band))
+            m["max_reldiff_row_batch"] = float(np.max(rd)) if nrow else 0.0
+            m["n_ax"] = int(np.sum(P[:, 2] != 0))
+            m["n_tv_general"] = int(np.sum(((P[:, 0] != 0) | (P[:, 1] != 0)) & ~(rr < 0.05)))
+            m["axial_only"] = bool(np.all(P[:, :2] == 0))
+            expect.append(("vec", full.ravel(), np.repeat(np.linalg.norm(P, axis=1) * (1 if f in "BJ" else 1 / mu_0), 3) + 1e-300))
+            continue
         elif kind in ("cylinder", "cylmask"):
             d, h, x, stratum = cylinder_case(rng, nps, sc)
             dim = np.array([[d, h]])
@@ -488,6 +571,9 @@ def run_stream(ctx, n, only=None, with_in_out=False):
              "celbatch": {"batches": 0, "entries": 0, "sizes_below_10": 0, "sizes_from_10": 0, "raised_RuntimeError": 0, "band_entries": 0,
                           "real_alone_ne_batch": 0, "real_cel0_ne_celv_off_band": 0, "real_cel0_ne_celv_in_band": 0, "real_max_reldiff_cel0_celv": 0.0,
                           "model_bit_identical_entries": 0},
+             "cylbatch": {"batches": 0, "rows": 0, "sizes_below_10": 0, "sizes_from_10": 0, "ax_subbatch_from_10": 0, "tv_subbatch_from_10": 0, "band_rows": 0,
+                          "real_row_ne_batch_off_band": 0, "real_row_ne_batch_in_band": 0, "real_max_reldiff_row_batch": 0.0, "max_reldiff_model": 0.0,
+                          "max_reldiff_model_axial_only": 0.0, "strata": {}},
              "el3batch": {"batches": 0, "entries": 0, "sizes_below_10": 0, "sizes_from_10": 0, "el30_raised_ValueError": 0, "real_alone_ne_batch": 0,
                           "nan_entries": 0, "max_reldiff": 0.0}}
     samples = []
@@ -512,6 +598,24 @@ def run_stream(ctx, n, only=None, with_in_out=False):
                 # the real celv is not row-wise / differs from cel0 off the band: what Props/C06 proves of the model is false of the code
                 stats["disagreements"] += 1
                 ctx.broken.append({"kind": "correspondence", "name": "kern:celbatch-rowwise", "detail": {"meta": m}})
+        if m["kind"] == "cylbatch":
+            yb = stats["cylbatch"]
+            yb["batches"] += 1
+            yb["rows"] += m["rows"]
+            yb["sizes_below_10" if m["rows"] < 10 else "sizes_from_10"] += 1
+            yb["ax_subbatch_from_10"] += m.get("n_ax", 0) >= 10
+            yb["tv_subbatch_from_10"] += m.get("n_tv_general", 0) >= 10
+            yb["band_rows"] += m.get("band_rows", 0)
+            yb["real_row_ne_batch_off_band"] += m.get("row_ne_batch_off_band", 0)
+            yb["real_row_ne_batch_in_band"] += m.get("row_ne_batch_in_band", 0)
+            yb["real_max_reldiff_row_batch"] = max(yb["real_max_reldiff_row_batch"], m.get("max_reldiff_row_batch", 0.0))
+            for st_ in m.pop("strata", []):
+                yb["strata"][st_] = yb["strata"].get(st_, 0) + 1
+            if m.get("row_ne_batch_off_band", 0):
+                # a row of the real batch result differs from the call with that row alone although no cel modulus is in the band:
+                # what Props/C06 cylinder_batch_rowwise_off_band proves of the model is false of the code
+                stats["disagreements"] += 1
+                ctx.broken.append({"kind": "correspondence", "name": "kern:cylbatch-rowwise", "detail": {"meta": m}})
         if m["kind"] == "el3batch":
             eb = stats["el3batch"]
             eb["batches"] += 1
@@ -603,7 +707,7 @@ def run_stream(ctx, n, only=None, with_in_out=False):
                 ok = False
             else:
                 both_nan = np.isnan(got) & np.isnan(exp)
-                tol = (1e-3 if m.get("stratum") == "near-edge-line" else 1e-12) if m["kind"] in ("triangle", "tetra") else 1e-12 if m["kind"] in ("cel0", "celiter", "el3batch") else 1e-15 if m["kind"] == "celbatch" else 1e-9 if m["kind"] == "cylinder" else 1e-10  # triangle sheets (repaired edge integral): same operations in the same order, agreement to a few ulp; only within 1e-12..1e-4 edge lengths of an edge line the cancellation in solid_angle (N, D of the arctan2) amplifies the different summation order of einsum; cylinder: scipy ellipk/ellipe vs their cel0 forms
+                tol = (1e-3 if m.get("stratum") == "near-edge-line" else 1e-12) if m["kind"] in ("triangle", "tetra") else 1e-12 if m["kind"] in ("cel0", "celiter", "el3batch") else 1e-15 if m["kind"] == "celbatch" else 1e-9 if m["kind"] == "cylinder" else (1e-14 if m.get("axial_only") else 1e-10) if m["kind"] == "cylbatch" else 1e-10  # triangle sheets (repaired edge integral): same operations in the same order, agreement to a few ulp; only within 1e-12..1e-4 edge lengths of an edge line the cancellation in solid_angle (N, D of the arctan2) amplifies the different summation order of einsum; cylinder: scipy ellipk/ellipe vs their cel0 forms
                 if m["kind"] == "cylinder" and np.shape(got) == np.shape(exp) and not np.any(both_nan):
                     with np.errstate(all="ignore"):
                         rd = np.abs(got - exp) / np.maximum(np.maximum(np.abs(got), np.abs(exp)), scale)
@@ -614,6 +718,12 @@ def run_stream(ctx, n, only=None, with_in_out=False):
                         rd = np.where(both_nan | (got == exp), 0.0, np.abs(got - exp) / np.maximum(np.abs(got), np.abs(exp)))
                     if np.all(np.isfinite(rd)):
                         stats["el3batch"]["max_reldiff"] = max(stats["el3batch"]["max_reldiff"], float(np.max(rd)))
+                if m["kind"] == "cylbatch" and np.shape(got) == np.shape(exp) and not np.any(both_nan):
+                    with np.errstate(all="ignore"):
+                        rd = np.abs(got - exp) / np.maximum(np.maximum(np.abs(got), np.abs(exp)), scale)
+                    if np.all(np.isfinite(rd)):
+                        key = "max_reldiff_model_axial_only" if m.get("axial_only") else "max_reldiff_model"
+                        stats["cylbatch"][key] = max(stats["cylbatch"][key], float(np.max(rd)))
                 if m["kind"] == "celbatch" and np.shape(got) == np.shape(exp):
                     stats["celbatch"]["model_bit_identical_entries"] += int(np.sum(both_nan | (got == exp)))
                 if m["kind"] in ("triangle", "tetra") and np.shape(got) == np.shape(exp):
@@ -630,7 +740,7 @@ def run_stream(ctx, n, only=None, with_in_out=False):
             stats["disagreements"] += 1
             if stats["disagreements"] <= 3:
                 ctx.broken.append({"kind": "correspondence", "name": "kern:" + m["kind"],
-                                   "detail": {"meta": m, "model": str(got), "real": str(exp), "maxreldiff": float(np.max(np.abs(np.asarray(got, dtype=float) - exp)) / max(np.max(np.abs(exp)), scale)) if (typ == "vec" and not isinstance(got, str)) else None}})
+                                   "detail": {"meta": m, "model": str(got), "real": str(exp), "maxreldiff": float(np.max(np.abs(np.asarray(got, dtype=float) - exp)) / max(np.max(np.abs(exp)), float(np.max(scale)))) if (typ == "vec" and not isinstance(got, str)) else None}})
         elif len(samples) < 3 and typ == "vec":
             samples.append({**m, "real": np.asarray(exp).tolist()})
     stats["samples"] = samples
